@@ -26,7 +26,8 @@ try:
     gen = {'C16Layout.lean': c16_extract.render_lean(LAY)}
 except Exception as exc:  # the tie is broken: keep the committed layout, search for a failing input
     extract_err = '%s: %s' % (type(exc).__name__, exc)
-chk.lean(['VermouthProps.C16', 'VermouthProps.C16Tables', 'VermouthProps.C16File', 'VermouthProps.C16Gro'],
+chk.lean(['VermouthProps.C16', 'VermouthProps.C16Tables', 'VermouthProps.C16File', 'VermouthProps.C16Gro',
+          'VermouthProps.C16Conect'],
          'driver_c16', generated=gen)
 if extract_err:
     chk.broken.append(('extract:C16Layout', extract_err))
